@@ -17,6 +17,26 @@ def load(modname: str, hname: str):
     return mod, spec
 
 
+def _preimport():
+    """Import the repository's modules once, untraced, before the exploration starts: harnesses import them lazily inside
+    the traced function, and an import executed under CrossHair's tracer has (rarely) failed with a spurious TypeError."""
+    import importlib
+
+    for m in (
+        "primaite.game.game", "primaite.game.science", "primaite.session.environment", "primaite.game.agent.rewards",
+        "primaite.simulator.sim_container", "primaite.simulator.network.hardware.nodes.network.firewall",
+        "primaite.simulator.network.hardware.nodes.network.wireless_router", "primaite.simulator.network.creation",
+        "primaite.simulator.system.services.terminal.terminal", "primaite.simulator.system.services.database.database_service",
+        "primaite.simulator.system.applications.database_client", "primaite.simulator.network.protocols.ssh",
+        "primaite.simulator.system.applications.red_applications.ransomware_script",
+        "primaite.simulator.system.applications.red_applications.dos_bot",
+    ):
+        try:
+            importlib.import_module(m)
+        except Exception:
+            pass
+
+
 def main(argv):
     mode, modname, hname, payload = argv[0], argv[1], argv[2], json.loads(argv[3])
     from vlib import chdriver
@@ -39,6 +59,7 @@ def main(argv):
                     return False
                 return True
 
+        _preimport()
         res = chdriver.explore(
             fn,
             payload.get("fixed", {}),
